@@ -194,6 +194,7 @@ type nodeInfo struct {
 	depth    int // bit depth at the pointer to this node
 	entryV0  []byte
 	entryV1  []byte
+	entryDB  []byte      // non-compact (database) serialization: inline leaf + embedded child hashes
 	childV0  []hash.Hash // left, right
 	childV1  []hash.Hash // leaf, left, right
 	key      []byte      // for leaves
@@ -244,6 +245,9 @@ func collectFull(root *node.Pointer) (info map[hash.Hash]*nodeInfo, leaves []kvP
 			}
 			ni.entryV0 = append([]byte{0x01}, e0...)
 			ni.entryV1 = append([]byte{0x01}, e1...)
+			if eb, err := n.MarshalBinary(); err == nil {
+				ni.entryDB = append([]byte{0x01}, eb...)
+			}
 			ni.childV0 = []hash.Hash{ptrHash(n.Left), ptrHash(n.Right)}
 			ni.childV1 = []hash.Hash{ptrHash(n.LeafNode), ptrHash(n.Left), ptrHash(n.Right)}
 			info[p.Hash] = ni
